@@ -24,7 +24,7 @@ ASSUMPTIONS = COMMON_ASSUMPTIONS
 def rule_a(ctx, rule='C10.a'):
     rep = ctx.report
     m = model(ctx)
-    n_recv = n_emit = n_pairs = 0
+    n_recv = n_emit = n_pairs = n_half = 0
     for h in m.handlers:
         inter, role = m.role(h)
         pre0 = init_bools(ctx, m, h)
@@ -73,6 +73,23 @@ def rule_a(ctx, rule='C10.a'):
                     closers.append((en, ec, cname))
         # channels: the two directions close in either order
         if inter == 'channel':
+            # ... and closing one direction while the other is open must not release the stream: the frames still to
+            # come in the open direction would be dropped as "unknown stream"
+            for a, da, fa in closers:
+                pa = [p for p in m.run(a, pre0) if p.outcome == 'return' and (fa is None or _emits(m, h, p, fa))]
+                if not pa:
+                    continue
+                # (one event may close both directions - a request frame carrying COMPLETE answered by a responder
+                # without publisher; then every closing flag of the handler is set when the stream is released)
+                early = [p for p in pa if m.finished(p) and
+                         not all({**pre0, **m.post_state(p)}.get(k) is True for k in pre0)]
+                n_half += 1
+                rep.add(rule, '%s%s / half-close keeps the stream while the other direction is open' % (
+                    a.name, ' emitting %s' % fa if fa else ''), a.func, not early,
+                        'the entry stays registered on all %d paths from the open state' % len(pa) if not early else
+                        'closing the %s direction alone (state %s) removes the stream on %d of %d paths: frames of the '
+                        'other direction are then dropped' % ('receiving' if da == 'recv' else 'sending', _st(pre0),
+                                                              len(early), len(pa)))
             seen_pairs = set()
             for a, da, fa in closers:
                 for b, db, fb in closers:
@@ -91,6 +108,7 @@ def rule_a(ctx, rule='C10.a'):
     rep.require(rule, 'received whole-stream terminals', n_recv, 7)
     rep.require(rule, 'emitted whole-stream terminals', n_emit, 6)
     rep.require(rule, 'channel half-close orderings', n_pairs, 8)
+    rep.require(rule, 'channel half-closes from the open state', n_half, 6)
     # invalid initial_request_n: the id registered by register_new_stream is released before raising
     f = ctx.repo.func('rsocket.streams.stream_handler:StreamHandler.initial_request_n')
     h0 = [h for h in m.handlers if m.role(h) == ('stream', 'requester')]
